@@ -102,6 +102,20 @@ func (s *simState) wakeBlockedOn(kind string) {
 	}
 }
 
+// wakeParkedSelects makes tasks parked in a select runnable again (a receiver
+// that has just started waiting may make one of their send clauses ready);
+// tasks parked on anything else are left alone.
+//
+//go:norace
+func (s *simState) wakeParkedSelects() {
+	for _, t := range s.tasks {
+		if t.state == stBlocked && len(t.blockedOn) >= 6 && t.blockedOn[:6] == "select" {
+			t.state = stRunnable
+			s.record("wake", s.cur.id, t.id, 0, "select")
+		}
+	}
+}
+
 // ---------------------------------------------------------------- RWMutex
 
 type RWMutex struct {
@@ -313,6 +327,12 @@ func simSleep(d int64) bool {
 	}
 	if d <= 0 {
 		s.yield(0, false)
+		return true
+	}
+	// sleeping is a step: a task polling with Sleep in a loop that never ends runs into the step budget
+	s.steps++
+	if s.steps > s.cfg.StepBudget {
+		s.abort("step_budget", 0)
 		return true
 	}
 	cur := s.cur
